@@ -20,7 +20,7 @@ import random
 
 CRITS = ['maxsize', 'minsize', 'gen', 'gre', 'mincost', 'minsqcost', 'lmb',
          'lsb', 'mincostlsb']
-MULTS = [0, 1, 1, 1, 2, 2, 3, 5, 10, 100]
+MULTS = [0, 1, 1, 1, 2, 2, 3, 5, 10, 100, 1000, 10000, 25000, 123457]
 
 
 def shash(obj):
